@@ -51,20 +51,38 @@ def R.obs : R → Ans
 
 /-! ### `check_type` (TypeChecker.py) -/
 
+/-- the aggregate kinds erased: what a comparison sees that recurses through `get_type()` without looking at the class -/
+def eraseKinds : Ty → Nat × Nat
+  | .simple t => (0, t)
+  | .agg _ b => let (d, t) := eraseKinds b; (d + 1, t)
+
+/-- `instance.get_type() <cmp> expected_type.get_type()` for an element `x` with base type `b'` against the declared base
+type `b`, in the three forms the extractor recognises (`Generated.elementBaseCmp`) -/
+def baseTypesMatch (mode : BaseCmp) (x : Val) (b' b : Ty) : Bool :=
+  match mode with
+  | .identity =>
+    match b with
+    | .simple _ => decide (b' = b)                                   -- classes: `==`
+    | .agg _ _ => decide (b' = b) && x.sharesDeclaredBase            -- aggregate objects: `==` is identity
+  | .structural => decide (b' = b)
+  | .structuralNoKind => decide (eraseKinds b' = eraseKinds b)
+
 /-- `check_type(value, expected_type)` returns normally.  For an aggregate expected type: `isinstance(value,
-type(expected_type))` and `value.get_type() == expected_type.get_type()` (bounds, UNIQUE, OPTIONAL of the element are
-not compared: `@TODO: check aggregate bounds`); for a simple expected type: `isinstance(value, expected_type)`.
+type(expected_type))` and the base-type comparison above (bounds, UNIQUE, OPTIONAL of the element are not compared:
+`@TODO: check aggregate bounds`); for a simple expected type: `isinstance(value, expected_type)`.
 The function reads nothing but its two arguments. -/
-def checkType (x : Val) (expected : Ty) : Bool :=
+def checkTypeWith (mode : BaseCmp) (x : Val) (expected : Ty) : Bool :=
   match expected with
   | .agg k b =>
     match x.ty with
-    | .agg k' b' => if k' ≠ k then false else decide (b' = b)
+    | .agg k' b' => if k' ≠ k then false else baseTypesMatch mode x b' b
     | .simple _ => false
   | .simple t =>
     match x.ty with
     | .simple t' => decide (t' = t)
     | .agg _ _ => false
+
+def checkType (x : Val) (expected : Ty) : Bool := checkTypeWith elementBaseCmp x expected
 
 /-- `check_type` raises `TypeError` -/
 def typeMismatch (x : Val) (expected : Ty) : Prop := ¬ (checkType x expected = true)
@@ -73,7 +91,7 @@ instance (x : Val) (expected : Ty) : Decidable (typeMismatch x expected) := by
   unfold typeMismatch; exact inferInstance
 
 theorem checkType_iff (x : Val) (e : Ty) : checkType x e = true ↔ x.ty = e := by
-  unfold checkType
+  unfold checkType checkTypeWith
   cases e with
   | simple t => cases hx : x.ty <;> simp
   | agg k b =>
@@ -81,7 +99,7 @@ theorem checkType_iff (x : Val) (e : Ty) : checkType x e = true ↔ x.ty = e := 
     | simple t => simp
     | agg k' b' =>
       by_cases hk : k' = k
-      · simp [hk]
+      · simp [hk, baseTypesMatch, elementBaseCmp]
       · simp [hk]
 
 theorem typeMismatch_iff (x : Val) (e : Ty) : typeMismatch x e ↔ x.ty ≠ e := by
